@@ -16,7 +16,8 @@ Inductive rawev :=
 | RRestart
 | RRemove (p : int)
 | RAge (p ms : int)                       (* milliseconds *)
-| RDg (l : list rawdg).
+| RDg (l : list rawdg)
+| RDgFail (l : list rawdg).
 
 (* per step: TUN writes (length, packed bytes) in order, rx_bytes delta per peer *)
 Definition rawobs := (list (int * list int) * list int)%type.
@@ -56,6 +57,7 @@ Definition dec_ev (r : rawev) : event :=
   | RRemove p => Remove (ni p)
   | RAge p s => Age (ni p) (ni s * 1000000)
   | RDg l => Dgrams (map dec_dg l)
+  | RDgFail l => DgramsTunFail (map dec_dg l)
   end.
 
 Definition dec_obs (r : rawobs) : list (list N) * list N :=
@@ -173,6 +175,7 @@ Fixpoint stat_evs (st : state) (evs : list event) (a : list N) : list N :=
   match evs with
   | [] => a
   | Dgrams l :: t => let '(st', a') := stat_dgs st l a in stat_evs st' t a'
+  | DgramsTunFail l :: t => let '(st', a') := stat_dgs st l a in stat_evs st' t a'
   | Handshake p i k :: t => stat_evs (fst (step st (Handshake p i k))) t (bump a 11)
   | HandshakeUnconf p i k :: t => stat_evs (fst (step st (HandshakeUnconf p i k))) t (bump a 13)
   | Restart :: t => stat_evs (fst (step st Restart)) t (bump a 14)
